@@ -1,6 +1,7 @@
 package world
 
 import (
+	"encoding/base64"
 	"fmt"
 	"strings"
 	"time"
@@ -57,6 +58,21 @@ func genC07(r *Rng) *Plan {
 		case 1: // honest sign-out, held
 			d := r.PickDur(time.Second, 5*time.Minute-2*time.Second, 5*time.Minute+3*time.Second)
 			p.Steps = append(p.Steps, Step{Op: "signout", B: "v", Host: host, Dur: d})
+		case 2: // the provider's callback endpoint, called directly: a state that names a caller-chosen URL, any code,
+			// and the provider answering the code exchange in every way it can
+			target := redirectCorpus[r.Intn(len(redirectCorpus))]
+			state := base64.URLEncoding.EncodeToString([]byte(r.Pick("nonce", "n0", "") + ":" + target))
+			if r.Chance(1, 5) {
+				state = base64.URLEncoding.EncodeToString([]byte(target))
+			}
+			if r.Chance(1, 2) {
+				st := r.Pick0(503, 429, 502, 500, 400, 401, 404)
+				p.Steps = append(p.Steps, Step{Op: "l3", Endpoint: "token", L3: []Answer{{Status: st, Body: `{"error":"temporarily_unavailable"}`, Tag: "token-" + itoa(st)}}})
+			} else if r.Chance(1, 3) {
+				p.Steps = append(p.Steps, Step{Op: "net", Name: "auth>" + OktaHost, Sub: r.Pick("refuse", "reset", "truncate"), Arg: 1, Arg2: r.Range(0, 60)})
+			}
+			p.Steps = append(p.Steps, Step{Op: "get", B: r.Pick("attacker", "v"), Host: AuthHost, Target: "/" + cfg.Slug + "/callback?code=" + r.Pick("x", "CODE000001", "") + "&state=" + queryEscape(state)})
+			p.Steps = append(p.Steps, Step{Op: "l3", Sub: "clear"}, Step{Op: "net", Sub: "clear"})
 		default:
 			b := r.Pick("v", "attacker", "attacker")
 			ep := r.Pick("sign_in", "sign_in", "sign_out", "sign_out", "start")
@@ -121,6 +137,9 @@ func genC08(r *Rng) *Plan {
 		if r.Chance(1, 5) {
 			st.Method = r.Pick("GET", "POST", "PUT", "DELETE", "HEAD", "OPTIONS", "PATCH")
 		}
+		if r.Chance(1, 2) {
+			st.Headers = append(st.Headers, [2]string{"Accept", "application/json"}) // what the real proxy sends
+		}
 		if r.Chance(1, 6) {
 			st.Dt = r.PickDur(cfg.TokenTTL-5*time.Second, cfg.TokenTTL+5*time.Second, cfg.AuthLifetime+5*time.Second, cfg.TokenTTL+300*time.Millisecond, cfg.TokenTTL+900*time.Millisecond, cfg.TokenTTL-300*time.Millisecond)
 		}
@@ -180,6 +199,21 @@ func genC09(r *Rng) *Plan {
 			p.Steps = append(p.Steps, st)
 		case 4:
 			p.Steps = append(p.Steps, Step{Op: "mint", B: "b1", Host: host, Mint: &MintSpec{AuthCipher: true, FromScratch: true}})
+		case 5:
+			// an authentic authenticator cookie (sealed under its secret, live tokens) whose e-mail the rule in force
+			// does not admit — as left behind by an earlier, laxer configuration
+			p.Steps = append(p.Steps, Step{Op: "mint", B: "b1", Host: host, Mint: &MintSpec{AuthCookie: true, Email: sp(r.Pick("intruder@not-allowed.net", "alice@example.com.evil.net", ""))}})
+		case 6:
+			if r.Chance(1, 2) {
+				// the authenticator restarts with a tightened e-mail rule; cookies issued under the old rule are still authentic
+				nc := cfg
+				nc.AuthAddresses, nc.AuthDomains = []string{"nobody@example.com"}, nil
+				if r.Chance(1, 2) {
+					nc.AuthAddresses, nc.AuthDomains = nil, []string{"corp.example"}
+				}
+				cfg = nc
+				p.Steps = append(p.Steps, Step{Op: "restart", Sub: "auth", NewCfg: &nc})
+			}
 		}
 		// drop the proxy cookie so that the next visit goes through the authenticator's /sign_in
 		p.Steps = append(p.Steps, Step{Op: "jar", B: "b1", Sub: "drop", Name: ProxyCookieName})
@@ -291,6 +325,21 @@ func genC10(r *Rng) *Plan {
 		p.Steps = append(p.Steps, Step{Op: "login", B: b, User: r.Pick("alice@example.com", "alice@example.com", "unverified@example.com", "bob@example.com"), Host: host, Target: "/"})
 		p.Steps = append(p.Steps, Step{Op: "l3", Sub: "clear"}, Step{Op: "net", Sub: "clear"})
 	}
+	if r.Chance(1, 3) {
+		// two logins complete at the same time: the second provider callback arrives while the first one's code
+		// exchange is still outstanding; each session is for the e-mail the provider returned for *its* code
+		p.Gen += "+twin"
+		u1, u2 := r.Pick("alice@example.com", "unverified@example.com"), r.Pick("bob@example.com", "carol@other.org", "unverified@example.com")
+		p.Steps = append(p.Steps, Step{Op: "flow_start", B: "t1", Name: "C1", Sub: "auth-callback", User: u1, Host: host, Target: "/"})
+		p.Steps = append(p.Steps, Step{Op: "flow_start", B: "t2", Name: "C2", Sub: "auth-callback", User: u2, Host: host, Target: "/"})
+		first := Step{Op: "pending", B: "t1", Name: "C1", Sub: "honest", Endpoint: "auth", Follow: 1}
+		second := Step{Op: "pending", B: "t2", Name: "C2", Sub: r.Pick("honest", "honest", "no-code", "junk-state"), Str: "AAAA", Follow: 1}
+		if r.Chance(1, 3) {
+			first.B, first.Name, second.B, second.Name = "t2", "C2", "t1", "C1"
+		}
+		first.Twin = &second
+		p.Steps = append(p.Steps, first)
+	}
 	return p
 }
 
@@ -340,6 +389,18 @@ func genC19(r *Rng) *Plan {
 	}
 	p.Steps = append(p.Steps, so)
 	p.Steps = append(p.Steps, Step{Op: "l3", Sub: "clear"}, Step{Op: "net", Sub: "clear"})
+	if r.Chance(1, 4) {
+		// the user signs in again; later the fresh session and the saved copy of the old one both come up for a
+		// check in overlapping requests: the old one is asked about on its own token
+		p.Gen += "+twin"
+		p.Steps = append(p.Steps, Step{Op: "login", B: "b1", User: "alice@example.com", Host: host, Target: "/"})
+		first, second := "b1", "saved"
+		if r.Chance(1, 3) {
+			first, second = "saved", "b1"
+		}
+		p.Steps = append(p.Steps, Step{Op: "get", B: first, Host: host, Target: "/fresh", Dt: r.PickDur(cfg.ValidTTL+3*time.Second, cfg.TokenTTL+5*time.Second),
+			Twin: &Step{Op: "get", B: second, Host: host, Target: "/reuse-overlapping", NoStore: true}})
+	}
 	// reuse of the saved copy at no-check-due and check-due instants
 	for i, n := 0, r.Range(1, 4); i < n; i++ {
 		p.Steps = append(p.Steps, Step{Op: "get", B: "saved", Host: host, Target: "/reuse", Dt: r.PickDur(time.Second, cfg.ValidTTL-3*time.Second, cfg.ValidTTL+3*time.Second, 2*cfg.ValidTTL, cfg.TokenTTL+5*time.Second), NoStore: r.Chance(1, 3)})
@@ -385,7 +446,13 @@ func genC11(r *Rng) *Plan {
 	host := cfg.Routes[0].From
 	for i, u := range users {
 		b := string(rune('a' + i))
+		if mask&4 != 0 && r.Chance(1, 4) {
+			// the authenticator cannot answer the group question during this login (or answers it with an error):
+			// an unanswered question satisfies no rule
+			p.Steps = append(p.Steps, Step{Op: "l2", Endpoint: "profile", L2: []L2Answer{l2Answer(r.Pick("429", "503", "503", "500", "401"))}})
+		}
 		p.Steps = append(p.Steps, Step{Op: "login", B: b, User: u.Email, Host: host, Target: "/"})
+		p.Steps = append(p.Steps, Step{Op: "l2", Sub: "clear"})
 		p.Steps = append(p.Steps, Step{Op: "get", B: b, Host: host, Target: "/no-check-due", Dt: 2 * time.Second})
 		p.Steps = append(p.Steps, Step{Op: "get", B: b, Host: host, Target: "/validation-due", Dt: cfg.ValidTTL + 3*time.Second})
 		if r.Chance(1, 2) {
